@@ -613,7 +613,7 @@ func vf13Workloads(r *verifkit.Run) []vf13Workload {
 		}
 		return w
 	}
-	rounds := r.Pick(2, 6)
+	rounds := r.Pick(2, 5)
 	for rd := 0; rd < rounds; rd++ {
 		rng := r.Rand("workloads", rd)
 		small := func(int) int { return 20 + rng.IntN(300) }
